@@ -69,6 +69,7 @@ def run(repo, rep):
     rule_maps(repo, rep, tm)
     rule_interface(repo, rep)
     rule_pairing(repo, rep)
+    rule_round5(repo, rep)
     rule_pass_order(repo, rep)
     rule_before_placement(repo, rep)
     rule_gate(repo, rep)
@@ -689,3 +690,61 @@ def rule_pass_order(repo, rep):
     if n < 2:
         raise AnalysisError("pack_into_passes: hoisting alternatives not recognised")
     rep.floor("C11-h", 2)
+
+
+def rule_round5(repo, rep):
+    """(i) the writer's buffer list accumulates over all subgraphs; the reader collapses only one-element quantisation vectors;
+    a rewrite never edits a quantisation record it has not cloned."""
+    from ..absint import Interp, Unknown
+
+    rep.clause("C11-i", "constant data collected for earlier subgraphs is kept when the next one is serialised; per-axis quantisation vectors are kept as read (only length-1 vectors become scalars); "
+               "rewrites edit quantisation records only after cloning them (the record may belong to an interface tensor or an operand of a CPU operator)")
+    tw = repo.mod("tflite_writer")
+    n = 0
+    for q, fn in tw.functions.items():
+        for st in ast.walk(fn):
+            tg = (st.targets[0] if isinstance(st, ast.Assign) and len(st.targets) == 1 else (st.target if isinstance(st, ast.AugAssign) else None))
+            if tg is not None and str(norm(tg)) == "self.buffers_to_write":
+                n += 1
+                ok = q.endswith("__init__") or isinstance(st, ast.AugAssign)
+                rep.check(ok, "C11-i", f"{TW}:{q}", f"`{str(norm(st))[:70]}` keeps what earlier subgraphs stored (binding in __init__, extension elsewhere)",
+                          "the list is re-bound while subgraphs are being serialised: buf_idx keeps counting across subgraphs, so the constant data already stored for earlier subgraphs "
+                          "(constants of CPU operators, the Ethos-U command stream and weights) is written empty")
+    if n < 2:
+        raise AnalysisError("buffers_to_write writers not found")
+    # reader: len1_array_to_scalar by interpretation on list stand-ins for the flatbuffer arrays
+    tr = repo.mod("tflite_reader")
+    from ..exprnorm import comparison
+
+    l1 = tr.func("TFLiteSubgraph.len1_array_to_scalar")
+    unwrap = [i_ for i_ in ast.walk(l1) if isinstance(i_, ast.If) and any(isinstance(b, ast.Return) and isinstance(b.value, ast.Subscript) and str(norm(b.value)) == "arr[0]" for b in i_.body)]
+    if len(unwrap) != 1:
+        raise AnalysisError("len1_array_to_scalar: the branch returning arr[0] was not found")
+    n += 1
+    rep.check(comparison(unwrap[0].test) == comparison(ast.parse("len(arr) == 1", mode="eval").body) and str(norm(l1.body[-1])) == "return arr", "C11-i", f"{TR}:TFLiteSubgraph.len1_array_to_scalar",
+              "only a one-element array becomes a scalar (len(arr) == 1); longer arrays, equal entries included, are returned unchanged",
+              f"collapses under `{str(norm(unwrap[0].test))}`: per-axis quantisation vectors with equal entries (always the all-zero zero points) are reduced to a scalar and written back as a one-element vector")
+    # rewrites: a local bound to <tensor>.quantization (not a clone) is never written through
+    n_al = 0
+    for m in repo.core_modules():
+        if m.name.startswith("tosa"):
+            continue
+        for q, fn in m.functions.items():
+            alias = {}
+            for st in walk_no_nested(fn):
+                if isinstance(st, ast.Assign) and len(st.targets) == 1 and isinstance(st.targets[0], ast.Name):
+                    if isinstance(st.value, ast.Attribute) and st.value.attr == "quantization":
+                        alias[st.targets[0].id] = (str(norm(st.value)), st.lineno)
+                        n_al += 1
+                    elif st.targets[0].id in alias:
+                        del alias[st.targets[0].id]
+            for st in walk_no_nested(fn):
+                if isinstance(st, (ast.Assign, ast.AugAssign)):
+                    for t in (st.targets if isinstance(st, ast.Assign) else [st.target]):
+                        if isinstance(t, ast.Attribute) and isinstance(t.value, ast.Name) and t.value.id in alias and st.lineno > alias[t.value.id][1]:
+                            rep.bad("C11-i", f"ethosu/vela/{m.name}.py:{q}", f"`{str(norm(st))[:70]}` edits a cloned quantisation record",
+                                    f"`{t.value.id}` is `{alias[t.value.id][0]}` itself, not a clone: the edit changes the quantisation of that tensor, which may be a subgraph output or an operand of a CPU operator")
+    if n_al < 5:
+        raise AnalysisError(f"quantisation aliases: only {n_al} found")
+    rep.check(True, "C11-i", "ethosu/vela", f"{n_al} local aliases of quantisation records are read only", "")
+    rep.floor("C11-i", 4)
